@@ -89,6 +89,17 @@ def decode(K, octets):
     return y, len(tl.tagList)
 
 
+def differ(a, b):
+    """a != b for two octet strings; one solver decision for all elements instead of one
+    per element (the conjunction is built with `&`, which does not fork)"""
+    if len(a) != len(b):
+        return True
+    same = True
+    for x, y in zip(a, b):
+        same = same & (x == y)
+    return not same
+
+
 def _name(e):
     return type(e).__name__
 
@@ -119,17 +130,16 @@ def reference(K, M):
         return ("none", str(e))
 
 
-def check_value(d, K, M):
-    """oracles 1, 2, 4 on one generated value"""
+def wire_of(d, K, M, octets):
+    """oracle 4, and the buffer the decoders are then run on.
+
+    When the tree's octets equal the reference octets (decided by the solver; where they can
+    differ the path forks and the difference is flagged) the decoders are handed the
+    reference's buffer: the same octets, but a flat list with concrete framing, whereas the
+    encoder's output is a chain of concatenations on which every PDUData.get() costs
+    hundreds of solver queries."""
     cname = K.__name__
     ref = reference(K, M)
-    try:
-        x = G.to_live(K, M)
-        octets = encode(K, x)
-    except Exception as e:
-        if ref[0] == "invalid":
-            return          # the standard and the tree agree: not a value of the production
-        raise Violation("encode-refused", cls=cname, exc=_name(e), msg=str(e)[:80])
     if ref[0] == "invalid":
         # e.g. an element the standard requires was absent and the tree encoded it anyway
         d.flag(True, "accepted-invalid-value", cls=cname, production=ref[1], element=ref[2], why=ref[3])
@@ -137,13 +147,29 @@ def check_value(d, K, M):
         d.flag(True, "schema-base-type", cls=cname, production=ref[1], element=ref[2], want=ref[3], got=ref[4])
     elif ref[0] == "octets":
         want = bytes(ref[1])
-        if bytes(octets) != want:
+        if differ(octets, want):
             d.flag(True, "wire-differs-from-schema", cls=cname, audited=ENC.audited(cname), got=octets, want=want)
+        else:
+            return want
     else:
         d.note(oracle4="skipped: " + ref[1])
+    return octets
+
+
+def check_value(d, K, M):
+    """oracles 1, 2, 4 on one generated value"""
+    cname = K.__name__
+    try:
+        x = G.to_live(K, M)
+        octets = encode(K, x)
+    except Exception as e:
+        if reference(K, M)[0] == "invalid":
+            return          # the standard and the tree agree: not a value of the production
+        raise Violation("encode-refused", cls=cname, exc=_name(e), msg=str(e)[:80])
+    wire = wire_of(d, K, M, octets)
     # 1. round trip
     try:
-        y, left = decode(K, octets)
+        y, left = decode(K, wire)
     except Exception as e:
         raise Violation("decode-refused-own-octets", cls=cname, exc=_name(e), msg=str(e)[:80], octets=octets)
     if left:
@@ -156,7 +182,7 @@ def check_value(d, K, M):
         again = encode(K, y)
     except Exception as e:
         raise Violation("reencode-refused", cls=cname, exc=_name(e), msg=str(e)[:80], octets=octets)
-    if bytes(again) != bytes(octets):
+    if differ(again, wire):
         raise Violation("reencode-differs", cls=cname, got=again, want=octets)
 
 
@@ -216,7 +242,7 @@ def cls_rt(d, group, tier):
     K = d.pick(GROUPS[tier][group], "cls")
     part = d.pick(["shapes", "leaves"], "part")
     thorough = tier == "t"
-    g = G.Gen(d, thorough, 2 if thorough else 1, HINTS)
+    g = G.Gen(d, thorough, 2 if thorough else 1, HINTS, 16 if thorough else 8)
     d.note(cls=K.__name__, part=part)
     if part == "shapes":
         M = g.top(K, "all")
@@ -253,7 +279,7 @@ def cls_refuse(d, group, tier):
     cname = K.__name__
     part = d.pick(refuse_parts(K), "part")
     thorough = tier == "t"
-    g = G.Gen(d, thorough, 2 if thorough else 1, HINTS)
+    g = G.Gen(d, thorough, 2 if thorough else 1, HINTS, 16 if thorough else 8)
     d.note(cls=cname, part=part)
     if part == "trailing":
         M = g.top(K, "full" if d.index(2, "base") == 1 else "min")
@@ -287,14 +313,227 @@ def cls_refuse(d, group, tier):
             before += G.item_count(e2.klass, fields[e2.name], e2.context)
         mine = G.item_count(el.klass, fields[el.name], el.context)
         spans = E.item_spans(octets)
-        cut = octets[:spans[before][0]] + octets[spans[before + mine - 1][1]:]
+        # (list concatenation: slices of a symbolic bytes object do not always concatenate)
+        cut = bytes(list(octets[:spans[before][0]]) + list(octets[spans[before + mine - 1][1]:]))
         refusal(d, K, cut, "missing-required", element=el.name)
     d.reach()
 
 
+# ---------------------------------------------------------------- list classes on their own
+def _list_classes():
+    out = {}
+    subs = [P.Unsigned, P.CharacterString, B.TimeStamp, B.PropertyValue, B.DateTime]
+    for sub in subs:
+        out["SequenceOf(%s)" % sub.__name__] = C.SequenceOf(sub)
+        out["ListOf(%s)" % sub.__name__] = C.ListOf(sub)
+        out["ArrayOf(%s)" % sub.__name__] = C.ArrayOf(sub)
+    out["ArrayOf(Unsigned,fixed=3)"] = C.ArrayOf(P.Unsigned, fixed_length=3)
+    out["ArrayOf(TimeStamp,fixed=3)"] = C.ArrayOf(B.TimeStamp, fixed_length=3)
+    out["PriorityArray"] = B.PriorityArray
+    return out
+
+
+LISTS = _list_classes()
+LIST_NAMES = sorted(LISTS)
+
+
+def _wire_type(k):
+    return G.kind_of(k) if issubclass(k, P.Atomic) else k.__name__
+
+
+@meta(bounds="SequenceOf / ListOf / ArrayOf of Unsigned, CharacterString, TimeStamp (choice), PropertyValue (sequence with "
+             "optionals and an Any), DateTime (untagged sequence), as classes of their own: every length 0..2 (thorough "
+             "0..3); fixed-length arrays of 3 and PriorityArray (16 PriorityValue) at their length; elements built like "
+             "nested values of cls_rt (shared inner selector, leaf classes crossed at full length): "
+             "decode(encode(v)) equals v (ArrayOf: element 0 is the length), re-encode identical, octets = the "
+             "reference encoding of the items one after the other, nothing left over",
+      outside="longer lists; other element types (covered as elements of the classes of cls_rt)",
+      stubs=[], assumes=[])
+def lists_rt(d, tier):
+    name = d.pick(LIST_NAMES, "cls")
+    K = LISTS[name]
+    thorough = tier == "t"
+    fixed = getattr(K, "fixed_length", None)
+    g = G.Gen(d, thorough, 3 if thorough else 2, HINTS, 16 if thorough else 8)
+    part = d.pick(["shapes", "leaves"], "part")
+    d.note(cls=name, part=part)
+    if part == "leaves":
+        g.pick_row(NROWS[tier])
+    if fixed is not None:
+        M = ("list", [g.value(K.subtype, 1) for _ in range(fixed)])
+    else:
+        M = g.top(K, "all" if part == "shapes" else "full")
+    try:
+        x = K([G.to_live(K.subtype, it) for it in M[1]])
+        tl = P.TagList()
+        x.encode(tl)
+        p = PDUData()
+        tl.encode(p)
+        octets = bytes(p.pduData)
+    except Exception as e:
+        raise Violation("encode-refused", cls=name, exc=_name(e), msg=str(e)[:80])
+    wire = octets
+    try:
+        want = []
+        for it in M[1]:
+            want += ENC.value(_wire_type(K.subtype), None, it, (name, "item"))
+        want = bytes(want)
+        if differ(octets, want):
+            d.flag(True, "wire-differs-from-schema", cls=name, audited=True, got=octets, want=want)
+        else:
+            wire = want
+    except (E.SchemaGap, E.TypeClash, E.StandardSaysInvalid) as e:
+        d.note(oracle4="skipped: %r" % (e,))
+    try:
+        y = K()
+        tl = P.TagList(PDUData(wire))
+        y.decode(tl)
+    except Exception as e:
+        raise Violation("decode-refused-own-octets", cls=name, exc=_name(e), msg=str(e)[:80], octets=octets)
+    if len(tl.tagList):
+        raise Violation("octets-left-over", cls=name, left=len(tl.tagList), octets=octets)
+    diff = X.differs(M, y, E.contents, name)
+    if diff is not None:
+        raise Violation("roundtrip-differs", cls=name, where=diff, octets=octets)
+    if len(y) != len(M[1]):
+        raise Violation("roundtrip-differs", cls=name, where="len()", octets=octets)
+    try:
+        tl = P.TagList()
+        y.encode(tl)
+        p = PDUData()
+        tl.encode(p)
+        again = bytes(p.pduData)
+    except Exception as e:
+        raise Violation("reencode-refused", cls=name, exc=_name(e), msg=str(e)[:80], octets=octets)
+    if differ(again, wire):
+        raise Violation("reencode-differs", cls=name, got=again, want=octets)
+    d.reach()
+
+
+# ---------------------------------------------------------------- registries
+REGISTRIES = [("confirmed_request", A.confirmed_request_types, A.ConfirmedRequestSequence),
+              ("complex_ack", A.complex_ack_types, A.ComplexAckSequence),
+              ("unconfirmed_request", A.unconfirmed_request_types, A.UnconfirmedRequestSequence),
+              ("error", A.error_types, A.ErrorSequence)]
+
+
+@meta(bounds="service choice symbolic over 0..255, each of the four registries: the class registered under the choice is "
+             "the one the reference schema names (clause 21 service choice numbers, audited by hand), carries that "
+             "serviceChoice and is of the registry's PDU kind; a choice the schema does not name yields no class "
+             "(error registry: none, or the plain Error production every other service uses)",
+      outside="nothing", stubs=[], assumes=[])
+def registries(d):
+    rname, reg, base = REGISTRIES[d.index(len(REGISTRIES), "registry")]
+    c = d.int(0, 255, "choice")
+    got = reg.get(c)
+    want = None
+    for k, n in sorted(SCHEMA["registries"][rname].items()):
+        if c == int(k):
+            want = n
+    gname = got.__name__ if got is not None else None
+    if rname == "error" and want is None:
+        if got is not None and got is not A.Error:
+            raise Violation("registry", registry=rname, choice=c, got=gname, want="None or Error")
+    elif gname != want:
+        raise Violation("registry", registry=rname, choice=c, got=gname, want=want)
+    if got is not None:
+        if not issubclass(got, base):
+            raise Violation("registry-kind", registry=rname, choice=c, got=gname)
+        if rname != "error" and got.serviceChoice != c:
+            raise Violation("registry-service-choice", registry=rname, choice=c, got=gname,
+                            serviceChoice=got.serviceChoice)
+    d.reach()
+
+
+# ---------------------------------------------------------------- Annex F
+ANNEXF = E.load_annexf()["examples"]
+BYTYPE = {0: A.confirmed_request_types, 1: A.unconfirmed_request_types, 3: A.complex_ack_types, 5: A.error_types}
+
+
+def _draw_slots(d, ex):
+    slots = {}
+    for name in sorted(ex["slots"]):
+        s = ex["slots"][name]
+        if s["kind"] == "u":
+            n = s["n"]
+            slots[name] = d.int(0 if n == 1 else 256 ** (n - 1), 256 ** n - 1, name)
+        elif s["kind"] == "inst":
+            slots[name] = d.int(0, 4194303, name)
+        elif s["kind"] == "chars":
+            slots[name] = "".join([chr(d.int(0x20, 0x7E, name)) for _ in range(s["n"])])
+        elif s["kind"] == "quad":
+            slots[name] = tuple([d.int(0, 255, name) for _ in range(4)])
+        else:
+            raise AssertionError(s)
+    return slots
+
+
+@meta(bounds="the worked examples of /verif/ref/annexf.json (ReadProperty request / ack, WriteProperty, ReadPropertyMultiple, "
+             "Who-Is with limits, I-Am, Who-Has, I-Have, SubscribeCOV, ConfirmedCOVNotification, AtomicReadFile, "
+             "TimeSynchronization, DeviceCommunicationControl, ReinitializeDevice, Error), each in semi-symbolic form: "
+             "the framing octets fixed as derived by hand from clauses 20.2 / 21, the value octets (instance numbers, "
+             "integers within the example's length class, characters, date / time octets) symbolic: the tree emits exactly "
+             "that body for every value; the published octets, through APDU.decode and the registry, decode to the "
+             "named class with the published parameters",
+      outside="the other Annex F examples; values outside the example's length class; floating point values other than "
+              "the published ones",
+      stubs=[], assumes=["header octets of the examples are illustrative (C07 covers the header layout)"])
+def annexf(d):
+    ex = ANNEXF[d.index(len(ANNEXF), "example")]
+    K = BYNAME[ex["class"]]
+    d.note(example=ex["id"])
+    # every value of the slots: exactly the published framing
+    slots = _draw_slots(d, ex)
+    M = E.model_from_json(ex["value"], slots)
+    want = bytes(E.body_from_json(ex["body"], slots))
+    try:
+        octets = encode(K, G.to_live(K, M))
+    except Exception as e:
+        raise Violation("annexf-encode-refused", example=ex["id"], exc=_name(e), msg=str(e)[:80])
+    if differ(octets, want):
+        raise Violation("annexf-octets", example=ex["id"], got=octets, want=want)
+    # the published octets decode to the published parameters
+    pub = E.published_slots(ex)
+    Mp = E.model_from_json(ex["value"], pub)
+    full = bytes.fromhex(ex["apci"]) + bytes(E.body_from_json(ex["body"], pub))
+    try:
+        from bacpypes.pdu import PDU
+        apdu = A.APDU()
+        apdu.decode(PDU(full))
+        cls = BYTYPE[apdu.apduType].get(apdu.apduService)
+        if cls is None and apdu.apduType == 5:
+            cls = A.Error
+        if cls is not K:
+            raise Violation("annexf-registry", example=ex["id"], got=getattr(cls, "__name__", None), want=ex["class"])
+        y = cls()
+        y.decode(apdu)
+    except Violation:
+        raise
+    except Exception as e:
+        raise Violation("annexf-decode-refused", example=ex["id"], exc=_name(e), msg=str(e)[:80])
+    diff = X.differs(Mp, y, E.contents, ex["class"])
+    if diff is not None:
+        raise Violation("annexf-decoded-value", example=ex["id"], where=diff)
+    d.reach()
+
+
 # ---------------------------------------------------------------- instances
-def estimate(K, tier):
-    """rough number of paths of one class in cls_rt (sizes the groups only)"""
+def leaves_of(k, depth=0):
+    """rough number of leaves of a fully populated value (sizes the groups only)"""
+    if G.is_list(k):
+        return leaves_of(k.subtype, depth + 1)
+    if issubclass(k, (P.Atomic, C.Any)):
+        return 1
+    if depth > G.MAXDEPTH:
+        return 1
+    if issubclass(k, C.Choice):
+        els = k.choiceElements
+        return max(leaves_of(els[0].klass, depth + 1), leaves_of(els[-1].klass, depth + 1))
+    return sum(leaves_of(e.klass, depth + 1) for e in k.sequenceElements) or 1
+
+
+def paths_of(K, tier):
+    """rough number of paths of one class in cls_rt"""
     t = tier == "t"
     maxlen = 2 if t else 1
     nested = any(not (issubclass(e.klass, P.Atomic)) for e in G.elements_of(K))
@@ -312,15 +551,21 @@ def estimate(K, tier):
     return shapes + leaves
 
 
+def estimate(K, tier):
+    """rough CPU seconds of one class in cls_rt (measured: 0.05 s + 0.03 s per leaf and path)"""
+    return paths_of(K, tier) * (0.05 + 0.03 * min(leaves_of(K), 16 if tier == "t" else 10))
+
+
 def estimate_refuse(K, tier):
-    return (4 if is_pdu(K) else 0) + (len(required_elements(K)) if issubclass(K, C.Sequence) else 0)
+    n = (4 if is_pdu(K) else 0) + (len(required_elements(K)) if issubclass(K, C.Sequence) else 0)
+    return n * (0.05 + 0.03 * min(leaves_of(K), 10))
 
 
-def make_groups(classes, est, tier, target):
+def make_groups(classes, est, tier, target, solo):
     groups, cur, size = [], [], 0
     for K in classes:
         n = est(K, tier)
-        if K.__name__ in SOLO:
+        if K.__name__ in solo:
             groups.append([K])
             continue
         if cur and size + n > target:
@@ -333,14 +578,21 @@ def make_groups(classes, est, tier, target):
     return groups
 
 
-# classes that get an instance of their own (a finding in one class ends the exploration of
-# its instance; this keeps the neighbours' obligations independent of it)
-SOLO = set()
+# Classes that get an instance of their own: those with a finding on the pinned tree (a
+# finding ends the exploration of its instance unless it is a recorded known finding; this
+# keeps the obligations of the neighbours independent of it).  Only the grouping depends
+# on these lists, no oracle does.
+SOLO_RT = set(["PropertyStates", "LogData", "NotificationParametersExtendedParametersType",
+               "NotificationParametersExtended", "NotificationParameters", "ReadAccessResult",
+               "AtomicReadFileACKAccessMethodChoice", "AtomicWriteFileRequestAccessMethodChoice",
+               "AtomicReadFileACK", "AtomicWriteFileRequest", "DeviceCommunicationControlRequest"])
+SOLO_REFUSE = set(["Destination", "SpecialEvent", "ReadRangeRequest"])
 
-GROUPS = {"q": make_groups(CLASSES, estimate, "q", 160), "t": make_groups(CLASSES, estimate, "t", 600)}
+GROUPS = {"q": make_groups(CLASSES, estimate, "q", 30, SOLO_RT),
+          "t": make_groups(CLASSES, estimate, "t", 400, SOLO_RT)}
 REFUSERS = [K for K in CLASSES if refuse_parts(K)]
-RGROUPS = {"q": make_groups(REFUSERS, estimate_refuse, "q", 120),
-           "t": make_groups(REFUSERS, estimate_refuse, "t", 120)}
+RGROUPS = {"q": make_groups(REFUSERS, estimate_refuse, "q", 30, SOLO_REFUSE),
+           "t": make_groups(REFUSERS, estimate_refuse, "t", 30, SOLO_REFUSE)}
 
 
 def _span(grp):
@@ -352,7 +604,10 @@ def instances(tier):
     t = "q" if q else "t"
     out = []
     for i, grp in enumerate(GROUPS[t]):
-        out.append(Inst(cls_rt, dict(group=i, tier=t), budget=120 if q else 900, label="%d:%s" % (i, _span(grp))))
+        out.append(Inst(cls_rt, dict(group=i, tier=t), budget=240 if q else 1500, label="%d:%s" % (i, _span(grp))))
     for i, grp in enumerate(RGROUPS[t]):
         out.append(Inst(cls_refuse, dict(group=i, tier=t), budget=120 if q else 300, label="%d:%s" % (i, _span(grp))))
+    out.append(Inst(lists_rt, dict(tier=t), budget=120 if q else 600))
+    out.append(Inst(registries, {}, budget=60))
+    out.append(Inst(annexf, {}, budget=60))
     return out
